@@ -34,12 +34,12 @@ def gen_ns_case(rng):
     handlers = []
     for n in names:
         kind = rng.choice(['P', 'P', 'C0', 'C1'])
-        raises = [e for e in ENTRY_NAMES if e and rng.random() < 0.08]
+        raises = [e for e in ENTRY_NAMES if e and rng.random() < 0.12]
         handlers.append([n, kind, raises])
     conf = {}
     for _ in range(rng.choice([0, 1, 3, 5, 8])):
         r = rng.random()
-        ns = rng.choice(NS_NAMES)
+        ns = rng.choice(names) if rng.random() < 0.7 else rng.choice(NS_NAMES)
         if r < 0.75:
             key = ns + '.' + rng.choice(ENTRY_NAMES)
         elif r < 0.85:
